@@ -1456,11 +1456,13 @@ class Interp:
             return NONE
         self.unresolved_calls[self.tag(fv).split("#")[0]] = self.unresolved_calls.get(self.tag(fv).split("#")[0], 0) + 1
         ev = self.emit("EXT", node, callee=fv, args=tuple(args), kwargs=dict(kwargs))
+        r = None
         if self.ext_result is not None:
             r = self.ext_result(self, fv, args, kwargs, node)
-            if r is not None:
-                return r
-        return Unk(self.fresh(f"ret({self.tag(fv)})"))
+        if r is None:
+            r = Unk(self.fresh(f"ret({self.tag(fv)})"))
+        ev.data["result"] = r
+        return r
 
     def bind_args(self, fnode, args, kwargs, fr: Frame, qualname, node):
         a = fnode.args
